@@ -2533,7 +2533,9 @@ class Parameters:
         p = '.'.join(dynamic_dep.spec.split(':')[0].split('.')[depth+1:])
         if p == 'param':
             # (the sub-object may be missing at the moment, e.g. None)
-            subparams = [sp for sp in list(getattr(subobjs[-1], 'param', []))]
+            # (no sub-object there at the moment: None, i.e. nothing to
+            # compare - its arrival is a change)
+            subparams = list(subobjs[-1].param) if hasattr(subobjs[-1], 'param') else None
         else:
             subparams = [p]
 
